@@ -226,6 +226,42 @@ def check_rebinding(seed):
             r = p.parse(name)
             if r != {'result': val, 'error': None}:
                 out.append(('set_variable(%r, %r) after earlier evaluations of %s' % (name, val, name), None, repr(val), repr(r)))
+    # any callable is a function: callable objects whose truth value is False (an empty memo dict with __call__, a
+    # callable with __len__ 0 or __bool__ False), classes, bound methods, partials - under a new name and over a built-in
+    import functools
+
+    class Memo(dict):
+        def __call__(self, *a):
+            return 4000 + len(a)
+
+    class Sized(object):
+        def __len__(self):
+            return 0
+
+        def __call__(self, *a):
+            return 5000 + len(a)
+
+    class Never(object):
+        def __bool__(self):
+            return False
+        __nonzero__ = __bool__
+
+        def __call__(self, *a):
+            return 6000 + len(a)
+
+    class Holder(object):
+        def m(self, *a):
+            return 7000 + len(a)
+    for label, fn, base in (('empty dict subclass with __call__', Memo(), 4000), ('callable with __len__() == 0', Sized(), 5000),
+                            ('callable with __bool__() False', Never(), 6000), ('bound method', Holder().m, 7000),
+                            ('functools.partial', functools.partial(lambda k, *a: k + len(a), 8000), 8000), ('class', int, None)):
+        for name in ('CUSTOMFN', 'SUM', 'MAX'):
+            w = hotxlfp.Parser()
+            w.set_function(name, fn)
+            r = w.parse('%s(2,3)' % name) if base is not None else w.parse('%s(2)' % name)
+            want = {'result': base + 2 if base is not None else 2, 'error': None}
+            if r != want:
+                out.append(('set_function(%r, <%s>) then %s(...)' % (name, label, name), None, repr(want), repr(r)))
     q = hotxlfp.Parser()
     if q.parse('LATE(1)')['error'] != '#NAME?':
         out.append(('LATE(1) unregistered', None, '#NAME?', repr(q.parse('LATE(1)'))))
